@@ -57,3 +57,13 @@ impl Model {
             .unwrap_or_default()
     }
 }
+
+/// Puntos de acceso para verificación (no forman parte de la API pública)
+#[cfg(any(kani, verif_hooks))]
+pub mod verif_hooks {
+    pub use super::indicators::k::*;
+    pub use super::indicators::n50::*;
+    pub use super::indicators::qsoljul::*;
+    pub use super::props::*;
+    pub use super::raytracing::*;
+}
